@@ -12,6 +12,9 @@
 // found directly / by reflection / failing, io.Pipe pair, net.Pipe, with io.ReaderFrom / io.WriterTo), crossed
 // with every order of half-close; longevity.go keeps tunnels of every configuration alive (idle and
 // trickling) for several times every timeout the proxy, its transport and its dialers have.
+// abort.go ends one endpoint's sending side ABRUPTLY in every configuration (reset, a TLS leg cut without
+// close_notify / inside a record / by a record that does not verify) while the other endpoint waits or is
+// still sending: the end must be relayed at once, not by the grace timer (machine with copy errors, `arun`).
 package c03
 
 import (
@@ -296,7 +299,17 @@ func Run(ctx *core.Ctx) {
 		"writing every 50 ms meanwhile, replies only after it has READ end-of-stream; the property's clause (end-of-stream promptly after the last byte while " +
 		"the opposite direction keeps flowing) is evaluated as it reads and fails in the recorded way - the far end's read ends only when the grace timer " +
 		"(0.3-0.45 s through the hook) closes the tunnel -, class decided from the case alone; any other shape (closed early or late, bytes written before " +
-		"the expiry lost, other content) is a VIOLATION; the model mirrors it (`trun` with the forced close, `hrun`: far end not shown end-of-stream)")
+		"the expiry lost, other content) is a VIOLATION; the model mirrors it (`trun` with the forced close, `hrun`: far end not shown end-of-stream). " +
+		"A fourth group (abort/…, abort-mode/…) ends one endpoint's sending side ABRUPTLY in every configuration, with the grace period at 3.5-4 s through the hook: " +
+		"the client or the far end (target, upstream proxy, SOCKS5 server, origin) resets its TCP connection (SO_LINGER 0 + close; also under a TLS leg), or - on " +
+		"a TLS leg (client → TLS listener, proxy → https upstream, X-Martian-Terminate-Tls target, ConnectFunc *tls.Conn) - sends a bare FIN without close_notify, " +
+		"half a record and a FIN, or a record that does not verify; 90-220 ms into a tunnel in which both endpoints write every 7-15 ms; the other endpoint is idle " +
+		"and waits for the end of the stream (then half-closes, or replies first) or is still sending; four tunnels per configuration at once (client resets / far " +
+		"end resets with the peer waiting, a TLS cut where there is a TLS leg, one drawn freely); judged directly - the survivor's read ends within 1.5 s of the " +
+		"abort (far below the grace period: a tunnel only the grace timer ended shows at abort + period) and not before it, what arrived is a prefix of what was " +
+		"sent, everything after a bare FIN, the proxy holds no socket 1.5 s after the survivors have finished; confirmed by repetition - and by the machine with " +
+		"copy errors (`arun`, policy always) on the observed history, which must end closed, the survivor shown the end, the grace timer not fired. On a far leg the " +
+		"proxy cannot half-close (F48) the far end is not made to wait for the end of the client's stream")
 	ctx.Assume("the kernel's loopback TCP delivers what is written in order and signals FIN as end-of-stream (the endpoints observe through it)")
 	ctx.Assume("Go's runtime timers do not fire early and time.Now is monotonic within the process (the sharp lower bound of the grace period rests on it)")
 	ctx.Assume("socket closure is observed through forwarder's own connection tracking (conntrack OnClose → listener_cx_active / dialer_cx_active) " +
@@ -362,6 +375,10 @@ func Run(ctx *core.Ctx) {
 	if ctx.NumFindings() < 4 && os.Getenv("VERIF_C03_NO_GRACE") == "" {
 		runGracePhase(ctx, pool, modes)
 	}
+	// one endpoint ends its sending side abruptly (abort.go): the end is relayed at once, not by the grace timer
+	if ctx.NumFindings() < 4 && os.Getenv("VERIF_C03_NO_ABORT") == "" {
+		runAbortPhase(ctx, pool, modes)
+	}
 	// established tunnels outlive every request / dial limit (longevity.go)
 	if ctx.NumFindings() < 4 && os.Getenv("VERIF_C03_NO_LONGEVITY") == "" {
 		runLongevityPhase(ctx, pool, modes)
@@ -386,6 +403,10 @@ func replayWith(ctx *core.Ctx, pool *envPool, raw json.RawMessage) {
 	}
 	if json.Unmarshal(raw, &kind) == nil && kind.Kind == "grace" {
 		replayGrace(ctx, pool, raw)
+		return
+	}
+	if kind.Kind == "abort" {
+		replayAbort(ctx, pool, raw)
 		return
 	}
 	var tc tunnelCase
